@@ -270,9 +270,19 @@ def _parse_npath(npath: str) -> list[_NPathSegment]:
     return segments
 
 
+# Reserved words are not valid bare attribute names (`{ if = 1; }` does not parse).
+_NIX_KEYWORDS = frozenset(
+    {"if", "then", "else", "assert", "with", "let", "in", "rec", "inherit", "or"}
+)
+
+
 def _format_attr_name(segment: _NPathSegment) -> str:
     """Format a segment as a binding name, quoting when needed."""
-    if segment.quoted or not _NPATH_IDENTIFIER_RE.match(segment.name):
+    if (
+        segment.quoted
+        or segment.name in _NIX_KEYWORDS
+        or not _NPATH_IDENTIFIER_RE.match(segment.name)
+    ):
         escaped = _escape_nix_string(segment.name, escape_interpolation=True)
         return f'"{escaped}"'
     return segment.name
